@@ -349,18 +349,20 @@ def rule_search(ctx):
     cntst = [s for s in statements(c.node) if isinstance(s, ast.Assign) and isinstance(s.value, ast.Call) and call_attr(s.value) == "count_remaining_permutations"]
     ctx.require(len(cntst) == 1 and ast.unparse(cntst[0].value.args[0]) == "counters", "_construct_permutation_with_copies: continuation count not found")
     nn = dotted(cntst[0].targets[0])
-    g = [(ast.unparse(t), pol) for t, pol in gs2[id(skip[0])][-1:]]
-    ctx.check(g == [("idx >= %s" % nn, True)] and ast.unparse(skip[0].value) == nn, R, c, "idx -= %s" % nn, "the index is reduced by exactly the continuation count it was found not to be below",
-              "`%s` under %s" % (ast.unparse(skip[0]), g), skip[0])
-    same_branch = len(restore) == 1 and gs2[id(restore[0])] == gs2[id(skip[0])]
+    Fc_ = Facts(c)
+    NNF = str(Fc_.at(skip[0], ast.Name(id=nn, ctx=ast.Load())))
+    cs_skip = Fc_.conds(skip[0])
+    ctx.check("(%s <= idx)" % NNF in cs_skip and str(Fc_.at(skip[0], skip[0].value)) == NNF, R, c, "idx -= %s" % nn, "the index is reduced by exactly the continuation count it was found not to be below",
+              "`%s` under %s" % (ast.unparse(skip[0]), cs_skip), skip[0])
+    same_branch = len(restore) == 1 and Fc_.conds(restore[0]) == cs_skip
     ctx.check(same_branch, R, c, "restore", "the borrowed copy is returned exactly when the element is skipped", "the counter is not restored exactly on the skip branch")
     body_order = [ast.unparse(s) for s in statements(c.node)]
     ctx.check(body_order.index("counters[i] -= 1") < body_order.index(ast.unparse(cntst[0])), R, c, "borrow before count",
               "the continuation is counted with the element's copy removed", "the continuation count no longer follows the borrow")
     acc = [s for s in statements(c.node) if isinstance(s, ast.Expr) and ast.unparse(s) == "sequence.append(i)"]
-    ctx.check(len(acc) == 1 and gs2[id(acc[0])][-1][1] is False and ast.unparse(gs2[id(acc[0])][-1][0]) == "idx >= %s" % nn, R, c, "accept", "otherwise the element is emitted",
-              "the accept branch changed")
-    ctx.check([ast.unparse(t) for t, _ in gs2[id(borrow[0])][-1:]] == ["counters[i] > 0"], R, c, "only available elements", "only elements with copies left are tried",
+    ctx.check(len(acc) == 1 and "(idx < %s)" % NNF in Fc_.conds(acc[0]), R, c, "accept", "otherwise the element is emitted",
+              "the accept branch changed: %s" % ([Fc_.conds(a) for a in acc]))
+    ctx.check("(0 < counters[i])" in Fc_.conds(borrow[0]), R, c, "only available elements", "only elements with copies left are tried",
               "the borrow is no longer guarded by `counters[i] > 0`")
     # combinations without replacement: greedy combinatorial number system
     w = ctx.fn("combinatorics:compute_jth_combination_without_replacement")
@@ -420,8 +422,15 @@ def rule_siblings(ctx):
     augs = Fr.augs("combos")
     ctx.check(it == "range(0, min(m, need_n) + 1)" and subs == ["recur(1 + start_i, need_n - v, q, m)"] and augs == ["+= count_interleavings(v, need_n)*recur(1 + start_i, need_n - v, q, m)"], R, r, "recursive children",
               "v = 0..min(m, need_n); child (start_i + 1, need_n - v) weighted by count_interleavings(v, need_n)", "recursive counter: range %s, child %s, sum %s" % (it, subs, augs))
-    tests_r = Fr.tests()
-    ctx.check(tests_r[:3] == ["(0 == need_n)", "(start_i < q)", "(need_n <= m*q - m*start_i)"], R, r, "recursive cuts", "base 1 at need_n == 0; 0 beyond q; 0 when the remaining capacity (q - start_i) m is short",
+    cases_r = Fr.cases()
+    fixed = sorted((c, v) for c, v in cases_r if v in ("0", "1"))
+    other = [(c, v) for c, v in cases_r if v not in ("0", "1")]
+    tests_r = cases_r
+    from ..facts import same_cases
+    want_cases = [(("(0 != need_n)", "(m*q - m*start_i < need_n)", "(start_i < q)"), "0"), (("(0 != need_n)", "(q <= start_i)"), "0"), (("(0 == need_n)",), "1"),
+                  (("(0 != need_n)", "(need_n <= m*q - m*start_i)", "(start_i < q)"), "<memo or sum>")]
+    found_cases = [(c, v if v in ("0", "1") else "<memo or sum>") for c, v in cases_r]
+    ctx.check(same_cases(found_cases, want_cases), R, r, "recursive cuts", "base 1 at need_n == 0; 0 beyond q; 0 when the remaining capacity (q - start_i) m is short",
               "recursive counter tests %s" % tests_r[:3])
     # continuation side
     src = {ast.unparse(s) for s in statements(k.node)}
@@ -456,9 +465,9 @@ def rule_siblings(ctx):
               Fc.iters() == ["counters"], R, crp, "multinomial", "(sum c)! / prod c!", "count_remaining_permutations changed: %s %s %s" % (rets, prods, guards))
     cpc = ctx.fn("combinatorics:count_permutations_with_copies")
     Fp = Facts(cpc)
-    ctx.check(Fp.tests() == ["(first_n == m*q)"] and Fp.returns()[0] == "(factorial(m*q))//(pow(factorial(m), q))" and
-              Fp.returns()[1] == "count_prefixes_of_permutations_with_copies(q, m, first_n, PermutationMemo())", R, cpc, "full length", "(q m)! / m! ** q; prefixes through the dispatcher",
-              "count_permutations_with_copies changed: %s %s" % (Fp.tests(), Fp.returns()))
+    ctx.check(Fp.cases() == [(("(first_n != m*q)",), "count_prefixes_of_permutations_with_copies(q, m, first_n, PermutationMemo())"),
+                             (("(first_n == m*q)",), "(factorial(m*q))//(pow(factorial(m), q))")], R, cpc, "full length", "(q m)! / m! ** q; prefixes through the dispatcher",
+              "count_permutations_with_copies changed: %s" % (Fp.cases(),))
     ci = ctx.fn("combinatorics:count_interleavings")
     ctx.check(Facts(ci).returns() == ["count_remaining_permutations([need_n - v, v])"], R, ci, "interleavings", "C(need_n, v) as a two-class multinomial", "count_interleavings returns %s" % Facts(ci).returns())
     ncm = ctx.fn("combinatorics:n_choose_m_given_m_factorial")
